@@ -295,6 +295,28 @@ pub open spec fn ends_replaced(net: &Network, path: Seq<NodeIdx>, out: Seq<NodeI
 pub open spec fn depots_added(net: &Network, path: Seq<NodeIdx>, out: Seq<NodeIdx>) -> bool {
     ends_added(net, path, out) || ends_replaced(net, path, out)
 }
+/// every activity of the path is a node of `out`
+pub open spec fn activities_kept(net: &Network, path: Seq<NodeIdx>, out: Seq<NodeIdx>) -> bool {
+    forall|i: int| 0 <= i < path.len() && net.sp_node(#[trigger] path[i]).sp_is_activity() ==> out.contains(path[i])
+}
+/// the path does not lose an activity unless it starts with a depot and ends with an activity (then the overflow
+/// branch of add_suitable_start_and_end_depot_to_path may overwrite the last node)
+pub open spec fn ends_alike(net: &Network, path: Seq<NodeIdx>) -> bool {
+    net.sp_node(path[0]).sp_is_depot() ==> net.sp_node(path[path.len() - 1]).sp_is_depot()
+}
+pub proof fn lemma_activities_kept(net: &Network, path: Seq<NodeIdx>, out: Seq<NodeIdx>)
+    requires path.len() >= 1, depots_added(net, path, out), ends_alike(net, path),
+    ensures activities_kept(net, path, out),
+{
+    assert forall|i: int| 0 <= i < path.len() && net.sp_node(#[trigger] path[i]).sp_is_activity() implies out.contains(path[i]) by {
+        if ends_added(net, path, out) {
+            assert(out[lead(net, path) + i] == path[i]);
+        } else {
+            assert(0 < i < path.len() - 1);
+            assert(out[i] == path[i]);
+        }
+    }
+}
 /// instance validity (A-index: how Network::new fills the lists): the network's lists of start / end depot nodes and
 /// the nodes of its overflow depot are nodes of the network
 pub open spec fn depot_lists_ok(net: &Network) -> bool {
